@@ -242,7 +242,7 @@ pub fn strategy(g: &GenCfg) -> BoxedStrategy<Case> {
             if let Some(c) = canc {
                 actors.push(c);
             }
-            Case { fam: "sem".into(), workers, pool, feat, cfg: vec![is_flag, init], actors, sched }
+            Case { fam: "sem".into(), workers, pool, feat, cfg: vec![is_flag, init], actors, sched, weak: 0 }
         })
         .boxed()
 }
